@@ -2,6 +2,7 @@
    Same output format as the "R " lines of harness/src/bin/c20.rs:
      p <iface|-> <member|-> <typ> <serial> <sender|-> <reply serial|-> <pre: stored id hex | none> <draw hex> <secs>
      u <12 bytes hex> <12 bytes hex> <secs>
+     g <stored id hex> <draw hex> <secs>       GetMachineId twice on a file system that already holds the id
    The stored id before the call, the draw and the clock are the environment the implementation ran in
    (read off by the harness / from the id's tail) and are the explicit arguments of the model. *)
 open Gen_model
@@ -45,7 +46,7 @@ let empty_fs : fs = fun _ -> None
 let show_file (f : fs) = match f machine_id_path with Some b -> hex_of_list b | None -> "none"
 
 let make_msg iface member typ serial sender rs =
-  { m_typ = (match typ with "c" -> MCall | "s" -> MSignal | "r" -> MReply | _ -> MError);
+  { m_typ = (match typ with "c" -> MCall | "s" -> MSignal | "r" -> MReply | "i" -> MInvalid | _ -> MError);
     m_dh = { dh_interface = opt_of_hex iface; dh_member = opt_of_hex member;
              dh_object = Some (list_of_hex "2f78"); dh_destination = None;
              dh_serial = (if serial = 0 then None else Some (n_of_int serial)); dh_sender = opt_of_hex sender;
@@ -83,6 +84,16 @@ let () =
           let r2 = handle_peer_message ascii_only e2 f1 m in
           let w2, f2 = match r2 with Ok ((_, w), f) -> (show_written w, f) | _ -> ("-", f1) in
           Printf.printf "handled1=%s r1=%s file1=%s handled2=%s r2=%s file2=%s\n"
+            (handled_str r1) w1 (show_file f1) (handled_str r2) w2 (show_file f2)
+      | [ "g"; pre; draw; secs ] ->
+          let m = make_msg peer_iface get_id "c" 77 "3a312e39" "-" in
+          let f0 = if pre = "none" then empty_fs else fs_write machine_id_path (list_of_hex pre) empty_fs in
+          let e1 = { e_now = n_of_int (int_of_string secs); e_rand = list_of_hex draw; e_write_ok = true } in
+          let r1 = handle_peer_message ascii_only e1 f0 m in
+          let w1, f1 = match r1 with Ok ((_, w), f) -> (show_written w, f) | _ -> ("-", f0) in
+          let r2 = handle_peer_message ascii_only e1 f1 m in
+          let w2, f2 = match r2 with Ok ((_, w), f) -> (show_written w, f) | _ -> ("-", f1) in
+          Printf.printf "pre=%s handled1=%s r1=%s file1=%s handled2=%s r2=%s file2=%s\n" pre
             (handled_str r1) w1 (show_file f1) (handled_str r2) w2 (show_file f2)
       | _ -> print_endline "?"
     done
